@@ -25,6 +25,7 @@ CASES = [  # (defect id, property, commit, demo, rules expected)
     ("D20", "C08", "0b77679", "d20_hour_24_on_last_day.py", ["R08.9"]),
     ("D21", "C01", "535f8bc", "d21_badi_year_table.py", ["R01.9"]),
     ("D22", "C08", "624dedc", "d22_calendar_from_text.py", ["R08.11"]),
+    ("D23", "C16", "ed93a17", "d23_badi_week_year_zero.py", ["R16.9"]),
 ]
 demos = os.path.join(HERE, "demos")
 for did, prop, commit, demo, rules in CASES:
